@@ -822,9 +822,16 @@ func runPayload(c payCase) payEvent {
 			if st.Rels[k] != r {
 				ev.PDefs = false
 			}
-			// (marshaling the full result above sorted its to-many ids in place: compare as sets)
-			if ev.Out == "accept" && !reflect.DeepEqual(setOf(idsOf(full.Get(k))), setOf(idsOf(part.Get(k)))) {
+			// (marshaling the full result above sorted its to-many ids in place: compare as multisets)
+			if ev.Out == "accept" && !reflect.DeepEqual(sortedIDs(idsOf(full.Get(k))), sortedIDs(idsOf(part.Get(k)))) {
 				ev.PVals = false
+			}
+			// ... and the partial result holds exactly the ids the payload lists, repeated ones included
+			for _, rs := range c.Rels {
+				if rs.Name == k && (rs.Shape == "list" || rs.Shape == "ident") &&
+					!reflect.DeepEqual(sortedIDs(rs.Listed), sortedIDs(idsOf(part.Get(k)))) {
+					ev.PVals = false
+				}
 			}
 		}
 	}
@@ -1101,6 +1108,10 @@ func codecOtherModes(mode string, rng *rand.Rand, stt *stats, w *evWriter, n int
 				c.Attrs["zz"] = "1" // unknown field
 			case 2:
 				c.Attrs["kstring"] = "null"
+			case 3:
+				c.Attrs["kbytes"] = "null" // what full unmarshaling makes of it is C06's matter; partial must agree
+			case 4:
+				c.Attrs["pbytes"] = "null"
 			}
 			so, sm := shapes[rng.Intn(len(shapes))], shapes[rng.Intn(len(shapes))]
 			if i < 49 {
